@@ -1,11 +1,8 @@
 package rules
 
 import (
-	"fmt"
 	"go/ast"
-	"go/constant"
 	"go/types"
-	"os"
 
 	"verif/internal/core"
 	"verif/internal/flow"
@@ -58,15 +55,12 @@ func c10relevantInline(f *flow.Func, carriers map[*ast.BlockStmt]bool, except ..
 // ServerPool.handle together with the same-package helpers it calls (wrapping and the mapping of
 // the error to the result may live in helpers); the flow analysis interprets those helpers in place.
 func c10Handle(c *core.Ctx) {
-	f := fn(c, c10px, "ServerPool", "handle")
-	retryF := structField(c, c10px, "ServerPool", "retryWrapper")
-	cbF := structField(c, c10px, "ServerPool", "circuitBreakerWrapper")
-	respF := structField(c, c10px, "serverPoolContext", "resp")
-	speT := namedType(c, c10px, "serverPoolError")
-	if f == nil || retryF == nil || cbF == nil || respF == nil || speT == nil {
+	ro := c10Roles(c)
+	if ro == nil {
 		return
 	}
-	cons := fname(c10px, "ServerPool", "handle")
+	f, retryF, cbF, respF, speT := ro.handle, ro.retryF, ro.cbF, ro.respF, ro.spe
+	cons := c10funcCons(f)
 	fs := reach(f, 3)
 	pm := map[ast.Node]ast.Node{}
 	for _, g := range fs {
@@ -125,8 +119,9 @@ func c10Handle(c *core.Ctx) {
 	// Request.IsStream() atoms
 	var streamKeys []string
 	for _, g := range fs {
-		for _, call := range calls(g.Body, false) {
+		for _, call := range calls(g.Body, true) { // local predicate closures included
 			if calleeIs(g, call, "(*"+c10hp+".Request).IsStream") {
+				carriers[g.Body] = true
 				streamKeys = append(streamKeys, f.CallKey(call))
 				// a boolean local defined as this call
 				if as, ok := pm[call].(*ast.AssignStmt); ok && len(as.Lhs) == 1 && len(as.Rhs) == 1 {
@@ -147,7 +142,7 @@ func c10Handle(c *core.Ctx) {
 	}
 	// nilOf: is the field (read through any receiver / any single-assignment local alias in the
 	// reach) known nil in a state?
-	nilOf := func(fld *types.Var) func(st *flow.State) flow.Val {
+	nilOf := func(fld *types.Var, condition bool) func(st *flow.State) flow.Val {
 		seen := map[string]bool{}
 		var keys []string
 		add := func(k string) {
@@ -162,6 +157,9 @@ func c10Handle(c *core.Ctx) {
 				case *ast.SelectorExpr:
 					if c10fieldSel(f, x, fld) {
 						add(f.NilKey(x))
+						if condition {
+							carriers[g.Body] = true // a helper that tests the field carries part of the decision
+						}
 					}
 				case *ast.AssignStmt:
 					if len(x.Lhs) != len(x.Rhs) {
@@ -185,38 +183,66 @@ func c10Handle(c *core.Ctx) {
 			return flow.Unknown
 		}
 	}
-	retryNil, cbNil, respNil := nilOf(retryF), nilOf(cbF), nilOf(respF)
+	retryNil, cbNil, respNil := nilOf(retryF, true), nilOf(cbF, true), nilOf(respF, false)
 
-	// the type assertion err.(serverPoolError) and buildFailureResponse
-	var speVar, okVar *ast.Ident
+	// the pool error is recognised by `spe, ok := err.(T)` (ok tested) or by the clause `case T:` of a
+	// type switch `switch spe := err.(type)`; speObjs are the variables holding the asserted value
+	speObjs := map[types.Object]bool{}
+	var okVar *ast.Ident
+	var speClauses []*ast.CaseClause
 	for _, g := range fs {
 		ast.Inspect(g.Body, func(n ast.Node) bool {
-			as, ok := n.(*ast.AssignStmt)
-			if !ok || len(as.Lhs) != 2 || len(as.Rhs) != 1 {
-				return true
-			}
-			if ta, ok := ast.Unparen(as.Rhs[0]).(*ast.TypeAssertExpr); ok && ta.Type != nil {
-				if tv, ok := f.Info.Types[ta.Type]; ok && types.Identical(tv.Type, speT) && speVar == nil {
-					speVar, okVar = c10ident(as.Lhs[0]), c10ident(as.Lhs[1])
-					carriers[g.Body] = true
+			switch x := n.(type) {
+			case *ast.AssignStmt:
+				if len(x.Lhs) != 2 || len(x.Rhs) != 1 {
+					return true
+				}
+				if ta, ok := ast.Unparen(x.Rhs[0]).(*ast.TypeAssertExpr); ok && ta.Type != nil {
+					if tv, ok := f.Info.Types[ta.Type]; ok && types.Identical(tv.Type, speT) && okVar == nil {
+						if id := c10ident(x.Lhs[0]); id != nil {
+							speObjs[c10obj(f, id)] = true
+						}
+						okVar = c10ident(x.Lhs[1])
+						carriers[g.Body] = true
+					}
+				}
+			case *ast.TypeSwitchStmt:
+				for _, cl := range x.Body.List {
+					cc := cl.(*ast.CaseClause)
+					if len(cc.List) != 1 {
+						continue
+					}
+					if tv, ok := f.Info.Types[cc.List[0]]; ok && types.Identical(tv.Type, speT) {
+						speClauses = append(speClauses, cc)
+						if o := f.Info.Implicits[cc]; o != nil {
+							speObjs[o] = true
+						}
+						carriers[g.Body] = true
+					}
 				}
 			}
 			return true
 		})
 	}
-	speMember := func(e ast.Expr, method, field string) bool {
-		if speVar == nil {
-			return false
-		}
+	// a member of the pool error: its int field / a method returning int (the code), its string
+	// field / a method other than Error returning string (the result)
+	speMember := func(e ast.Expr, fld *types.Var, kind types.BasicKind) bool {
 		e = ast.Unparen(e)
 		if call, ok := e.(*ast.CallExpr); ok {
-			if !calleeIs(f, call, "("+c10px+".serverPoolError)."+method) {
+			fo, ok := f.Callee(call).(*types.Func)
+			if !ok || fo.Name() == "Error" || len(call.Args) != 0 {
+				return false
+			}
+			sig := fo.Type().(*types.Signature)
+			if sig.Recv() == nil || !types.Identical(sig.Recv().Type(), speT) || sig.Results().Len() != 1 {
+				return false
+			}
+			if bt, ok := sig.Results().At(0).Type().(*types.Basic); !ok || bt.Kind() != kind {
 				return false
 			}
 			e = c10recv(call)
 		} else if sel, ok := e.(*ast.SelectorExpr); ok {
-			s := f.Info.Selections[sel]
-			if s == nil || s.Obj().Name() != field || !types.Identical(s.Recv(), speT) {
+			if !c10fieldSel(f, sel, fld) {
 				return false
 			}
 			e = sel.X
@@ -224,10 +250,53 @@ func c10Handle(c *core.Ctx) {
 			return false
 		}
 		id := c10ident(e)
-		return id != nil && c10obj(f, id) == c10obj(f, speVar)
+		return id != nil && speObjs[c10obj(f, id)]
 	}
-	isSpeCode := func(e ast.Expr) bool { return speMember(e, "Code", "code") }
-	isSpeResult := func(e ast.Expr) bool { return speMember(e, "Result", "result") }
+	isSpeCode := func(e ast.Expr) bool { return speMember(e, ro.codeF, types.Int) }
+	isSpeResult := func(e ast.Expr) bool { return speMember(e, ro.resultF, types.String) }
+	// role: the failure-response builder is the same-package function with an int (status) parameter
+	// that stores the response field of the per-request context
+	failCode := func(call *ast.CallExpr) (ast.Expr, bool) {
+		fo, ok := f.Callee(call).(*types.Func)
+		if !ok || fo.Pkg() != f.Pkg.Types {
+			return nil, false
+		}
+		fd := declOf(f.Pkg, fo)
+		if fd == nil || fd.Type.Params == nil {
+			return nil, false
+		}
+		stores := false
+		ast.Inspect(fd.Body, func(n ast.Node) bool {
+			if as, ok := n.(*ast.AssignStmt); ok {
+				for _, l := range as.Lhs {
+					if c10fieldSel(f, l, respF) {
+						stores = true
+					}
+				}
+			}
+			return true
+		})
+		if !stores {
+			return nil, false
+		}
+		k := 0
+		var code ast.Expr
+		n := 0
+		for _, fld := range fd.Type.Params.List {
+			names := len(fld.Names)
+			if names == 0 {
+				names = 1
+			}
+			for i := 0; i < names; i++ {
+				if bt, ok := f.Info.Types[fld.Type].Type.(*types.Basic); ok && bt.Kind() == types.Int && k < len(call.Args) {
+					code = call.Args[k]
+					n++
+				}
+				k++
+			}
+		}
+		return code, n == 1
+	}
 
 	const evRetry, evBreaker = "ev:retryApplied", "ev:breakerApplied"
 	var badOrder *flow.State
@@ -235,6 +304,9 @@ func c10Handle(c *core.Ctx) {
 	res := analyze(c, f, flow.Config{
 		NoHavoc: true,
 		Inline:  c10relevantInline(f, carriers),
+		// predicates held in single-assignment local closures (canRetry := func() bool {..}) are
+		// interpreted in place; the attempt closure is reassigned by the wrappers and stays opaque
+		InlineClosures: true,
 		OnCall: func(st *flow.State, call *ast.CallExpr, callee types.Object, deferred bool) {
 			if k, ok := wraps[call]; ok {
 				// the wrappers form one chain on the path (the result of each Wrap is kept): what
@@ -249,8 +321,10 @@ func c10Handle(c *core.Ctx) {
 				}
 				return
 			}
-			if calleeIs(f, call, "(*"+c10px+".ServerPool).buildFailureResponse") {
-				if len(call.Args) == 2 && isSpeCode(call.Args[1]) {
+			if code, ok := failCode(call); ok {
+				// what is known about the response at the moment the failure response replaces it
+				st.Set("ev:failrespOnNil", respNil(st))
+				if isSpeCode(code) {
 					st.Set("ev:failresp", flow.True)
 				} else {
 					st.Set("ev:failresp", flow.False)
@@ -344,16 +418,26 @@ func c10Handle(c *core.Ctx) {
 		"the wrapped handler is not invoked with the client request's Context(): the retry loop cannot observe that the client has gone and keeps calling the backend")
 
 	// ---- R-C10-5 (handle side): result and failure response from the last attempt
-	if speVar == nil || okVar == nil {
-		c.Violate("R-C10-5", cons+"|result from serverPoolError", pos(c, f.Body), "handle no longer type-asserts the handler's error to serverPoolError: the classification (timeout/serverError/clientError/failureCode) does not reach the pipeline")
+	if len(speObjs) == 0 || (okVar == nil && len(speClauses) == 0) {
+		c.Violate("R-C10-5", cons+"|result from serverPoolError", pos(c, f.Body), "handle no longer recognises the handler's error as the pool's error type (type assertion or type switch): the classification (timeout/serverError/clientError/failureCode) does not reach the pipeline")
 		return
 	}
-	okKey := f.VarKey(okVar)
+	isSpeExit := func(ex *flow.Exit) bool {
+		if okVar != nil && ex.State.Is(f.VarKey(okVar), flow.True) {
+			return true
+		}
+		for _, cc := range speClauses {
+			if contains(cc, ex.Ret()) {
+				return true
+			}
+		}
+		return false
+	}
 	var badRes, badResp *flow.Exit
 	whyResp := ""
 	n := 0
 	for _, ex := range res.Exits {
-		if ex.Kind != flow.ExitReturn || ex.Return == nil || !ex.State.Is(okKey, flow.True) {
+		if ex.Kind != flow.ExitReturn || ex.Return == nil || !isSpeExit(ex) {
 			continue
 		}
 		n++
@@ -366,7 +450,7 @@ func c10Handle(c *core.Ctx) {
 		case badResp != nil:
 		case other:
 			badResp, whyResp = ex, "a failure response is built with a status that is not the serverPoolError's code: the client does not see 408 for a timeout / 503 for a server error"
-		case built && respNil(ex.State) != flow.True:
+		case built && !ex.State.Is("ev:failrespOnNil", flow.True):
 			badResp, whyResp = ex, "a failure response is built although the last attempt is not known to have left no response: the backend's response of the last attempt (failure code) is replaced"
 		case !built && respNil(ex.State) != flow.False:
 			badResp, whyResp = ex, "handle returns a failure result without building a failure response although the last attempt may have left no response: the client sees a stale or default response instead of the 408/503/499 status"
@@ -386,234 +470,6 @@ func c10Handle(c *core.Ctx) {
 		"with a serverPoolError handle returns something other than the error's result string: the attempt's classification is lost", exitW(badRes)...)
 	c.Check(badResp == nil, "R-C10-5", cons+"|failure response iff no response", pos(c, invokes[0]),
 		sprintf("%d exit(s): buildFailureResponse(spe.code) exactly when spCtx.resp == nil", n), whyResp, exitW(badResp)...)
-}
-
-// c10Attempt decides R-C10-4 on the per-attempt closure of ServerPool.handle.
-func c10Attempt(c *core.Ctx) {
-	f := fn(c, c10px, "ServerPool", "handle")
-	respF := structField(c, c10px, "serverPoolContext", "resp")
-	timeoutF := structField(c, c10px, "ServerPool", "timeout")
-	if f == nil || respF == nil || timeoutF == nil {
-		return
-	}
-	cons := fname(c10px, "ServerPool", "handle") + "$attempt"
-	doObj := func() types.Object {
-		if g := fnOpt(c, c10px, "ServerPool", "doHandle"); g != nil {
-			return g.Info.Defs[g.Node.(*ast.FuncDecl).Name]
-		}
-		return nil
-	}()
-	// role: the function literal with the handler signature, in handle or a helper of it, from
-	// which doHandle is reached (directly or through same-package helpers such as an extracted
-	// "one attempt" method)
-	var lit *ast.FuncLit
-	var lf *flow.Func
-	var dos []*ast.CallExpr
-	var unit []*flow.Func // the literal and the helpers between it and doHandle
-	direct := 0
-	for _, g := range reach(f, 2) {
-		if g.Node == ast.Node(c10fnNode(doObj, g)) {
-			continue
-		}
-		direct += len(callsTo(g, g.Body, false, "(*"+c10px+".ServerPool).doHandle"))
-		ast.Inspect(g.Body, func(n ast.Node) bool {
-			l, ok := n.(*ast.FuncLit)
-			if !ok {
-				return true
-			}
-			if tv, ok := g.Info.Types[l]; !ok || !c10isHandlerSig(tv.Type) {
-				return true
-			}
-			cand := g.Lit(l)
-			var found []*ast.CallExpr
-			var fns []*flow.Func
-			for _, h := range reach(cand, 3) {
-				if doObj != nil && h.Info.Defs[c10fnName(h)] == doObj {
-					continue
-				}
-				fns = append(fns, h)
-				found = append(found, callsTo(h, h.Body, true, "(*"+c10px+".ServerPool).doHandle")...)
-			}
-			if len(found) > 0 {
-				if lit != nil && lit != l {
-					lit = nil
-					return false
-				}
-				lit, lf, dos, unit = l, cand, found, fns
-			}
-			return false
-		})
-	}
-	if !c.RequireCount("R-C10-4", "doHandle call sites in ServerPool.handle", len(dos), 1) {
-		return
-	}
-	if lit == nil {
-		c10shape(c, "R-C10-4", cons+"|response reset per attempt", pos(c, dos[0]), "doHandle is not reached from a single function literal of handle")
-		return
-	}
-	ctxP := c10paramObj(f, lit.Type, 0)
-	if ctxP == nil || !c10isCtxType(ctxP.Type()) {
-		c.Errorf("R-C10-4: anchor: the attempt closure has no named context.Context parameter")
-		return
-	}
-	carriers := map[*ast.BlockStmt]bool{}
-	var tests []c10sign
-	for _, h := range unit {
-		tests = append(tests, c10signTests(f, h.Body, timeoutF)...)
-		if len(callsTo(h, h.Body, true, "(*"+c10px+".ServerPool).doHandle")) > 0 {
-			carriers[h.Body] = true
-		}
-	}
-	bodyOf := func(n ast.Node) ast.Node {
-		for _, h := range unit {
-			if contains(h.Body, n) {
-				return h.Body
-			}
-		}
-		return lit.Body
-	}
-
-	good := func(st *flow.State, id *ast.Ident) bool {
-		if id == nil {
-			return false
-		}
-		if c10obj(f, id) == ctxP {
-			return !st.Is("ev:ctxbad:"+lf.Render(id), flow.True)
-		}
-		return st.Is("ev:ctxgood:"+lf.Render(id), flow.True)
-	}
-	res := analyze(c, lf, flow.Config{
-		NoHavoc: true,
-		Inline:  c10relevantInline(lf, carriers, doObj),
-		OnCall: func(st *flow.State, call *ast.CallExpr, callee types.Object, deferred bool) {
-			// a context handed to a same-package helper keeps its status under the parameter's name
-			fo, ok := callee.(*types.Func)
-			if !ok || fo == doObj {
-				return
-			}
-			fd := declOf(f.Pkg, fo)
-			if fd == nil || fd.Type.Params == nil {
-				return
-			}
-			k := 0
-			for _, fld := range fd.Type.Params.List {
-				if len(fld.Names) == 0 {
-					k++
-					continue
-				}
-				for _, name := range fld.Names {
-					if k < len(call.Args) && c10isCtxType(f.Info.Defs[name].Type()) {
-						arg := c10ident(call.Args[k])
-						key := lf.Render(name)
-						st.Set("ev:ctxgood:"+key, map[bool]flow.Val{true: flow.True, false: flow.False}[good(st, arg)])
-						if arg != nil {
-							st.Set("ev:deadline:"+key, st.Get("ev:deadline:"+lf.Render(arg)))
-						}
-					}
-					k++
-				}
-			}
-		},
-		OnNode: func(st *flow.State, n ast.Node) {
-			as, ok := n.(*ast.AssignStmt)
-			if !ok {
-				return
-			}
-			// stores to spCtx.resp
-			for i, l := range as.Lhs {
-				if c10fieldSel(f, l, respF) {
-					if len(as.Rhs) == len(as.Lhs) && f.Info.Types[as.Rhs[i]].IsNil() {
-						st.Set("ev:respReset", flow.True)
-					} else {
-						st.Set("ev:respReset", flow.False)
-					}
-				}
-			}
-			// writes to context-typed variables
-			if len(as.Lhs) == 0 {
-				return
-			}
-			l := c10ident(as.Lhs[0])
-			if l == nil {
-				return
-			}
-			v, ok := c10obj(f, l).(*types.Var)
-			if !ok || !c10isCtxType(v.Type()) {
-				return
-			}
-			derived, deadline := false, flow.Unknown
-			if len(as.Rhs) == 1 {
-				if call, ok := ast.Unparen(as.Rhs[0]).(*ast.CallExpr); ok && len(call.Args) >= 1 {
-					src := c10ident(call.Args[0])
-					if good(st, src) {
-						derived = true
-						deadline = st.Get("ev:deadline:" + lf.Render(src))
-						switch calleeFull(f, call) {
-						case "context.WithTimeout", "context.WithDeadline":
-							if len(call.Args) == 2 && c10mentions(f, c10alias(f, bodyOf(call), call.Args[1]), timeoutF) {
-								deadline = flow.True
-							}
-						}
-					}
-				} else if src := c10ident(as.Rhs[0]); src != nil && good(st, src) {
-					derived = true
-					deadline = st.Get("ev:deadline:" + lf.Render(src))
-				}
-			}
-			key := lf.Render(l)
-			if c10obj(f, l) == ctxP {
-				st.Set("ev:ctxbad:"+key, map[bool]flow.Val{true: flow.False, false: flow.True}[derived])
-			} else {
-				st.Set("ev:ctxgood:"+key, map[bool]flow.Val{true: flow.True, false: flow.False}[derived])
-			}
-			st.Set("ev:deadline:"+key, deadline)
-		},
-	})
-	if res == nil {
-		return
-	}
-	var badReset, badCtx, badDL *flow.State
-	whyDL := ""
-	n := 0
-	for _, d := range dos {
-		var arg *ast.Ident
-		if len(d.Args) >= 1 {
-			arg = c10ident(d.Args[0])
-		}
-		for _, st := range res.At[d] {
-			n++
-			if !st.Is("ev:respReset", flow.True) && badReset == nil {
-				badReset = st
-			}
-			if !good(st, arg) {
-				if badCtx == nil {
-					badCtx = st
-				}
-				continue
-			}
-			has := st.Is("ev:deadline:"+lf.Render(arg), flow.True)
-			p := c10positive(st, tests)
-			switch {
-			case badDL != nil:
-			case has && p != flow.True:
-				badDL, whyDL = st, "doHandle runs under WithTimeout(ctx, sp.timeout) on a path where sp.timeout > 0 is not established: a pool without a timeout gets an already expired deadline and every request ends as 408/timeout"
-			case !has && p != flow.False:
-				badDL, whyDL = st, "doHandle is reachable without a WithTimeout(ctx, sp.timeout) context although sp.timeout <= 0 is not established: a backend that does not answer hangs the request instead of yielding timeout (408)"
-			}
-		}
-	}
-	if n == 0 {
-		c.Violate("R-C10-4", cons+"|response reset per attempt", pos(c, dos[0]), "doHandle is unreachable in the attempt closure")
-		return
-	}
-	c.Check(badReset == nil, "R-C10-4", cons+"|response reset per attempt", pos(c, dos[0]),
-		sprintf("%d state(s) reach doHandle, all after spCtx.resp = nil", n),
-		"doHandle is reachable without spCtx.resp having been cleared in this attempt: when an earlier attempt left a response (failure code) and the last attempt fails without one, handle sees resp != nil and the client is served the earlier attempt's response with the last attempt's result", witness(badReset)...)
-	c.Check(badCtx == nil, "R-C10-4", cons+"|attempt context derived from wrapper ctx", pos(c, dos[0]),
-		"doHandle receives the closure's ctx parameter or a context derived from it",
-		"doHandle receives a context that is not derived from the closure's ctx parameter: the client's cancellation does not reach the backend call", witness(badCtx)...)
-	c.Check(badDL == nil, "R-C10-4", cons+"|deadline iff timeout configured", pos(c, dos[0]),
-		sprintf("%d state(s): WithTimeout(ctx, sp.timeout) applied exactly when sp.timeout > 0 (helpers interpreted in place: %v)", n, res.Inlined), whyDL, witness(badDL)...)
 }
 
 // c10ctxDerived reports whether ident id (a context variable of fn f) is the parameter param or
@@ -656,600 +512,6 @@ func c10ctxDerived(f *flow.Func, root ast.Node, id *ast.Ident, param types.Objec
 	return good(c10obj(f, id))
 }
 
-// c10DoHandle decides the send-failure table of R-C10-5 and the context flow of R-C10-4.
-func c10DoHandle(c *core.Ctx) {
-	f := fn(c, c10px, "ServerPool", "doHandle")
-	stdReqF := structField(c, c10px, "serverPoolContext", "stdReq")
-	speT := namedType(c, c10px, "serverPoolError")
-	if f == nil || stdReqF == nil || speT == nil {
-		return
-	}
-	cons := fname(c10px, "ServerPool", "doHandle")
-	fs := reach(f, 3)
-	pm := map[ast.Node]ast.Node{}
-	for _, g := range fs {
-		for k, v := range parentMap(g.Body) {
-			pm[k] = v
-		}
-	}
-	ctxP := c10paramObj(f, f.Type, 0)
-	if ctxP == nil || !c10isCtxType(ctxP.Type()) {
-		c.Errorf("R-C10-4: anchor: doHandle's first parameter is not a named context.Context")
-		return
-	}
-	// expected constants (role: declared result names of the proxy filter)
-	pkg := c.Prog.Pkg(c10px)
-	want := map[string][2]string{} // row -> {code, result}
-	for row, v := range map[string][2]string{"nil": {"503", "resultServerError"}, "deadline": {"408", "resultTimeout"}, "other": {"499", "resultClientError"}} {
-		o, ok := pkg.Types.Scope().Lookup(v[1]).(*types.Const)
-		if !ok || o.Val().Kind() != constant.String {
-			c.Errorf("R-C10-5: anchor: constant %s.%s not found", c10px, v[1])
-			return
-		}
-		want[row] = [2]string{v[0], constant.StringVal(o.Val())}
-	}
-
-	// ---- subject: the send through the package-level function variable fnSendRequest
-	var sends []*ast.CallExpr
-	for _, call := range calls(f.Body, false) {
-		if id := c10ident(call.Fun); id != nil {
-			if v, ok := c10obj(f, id).(*types.Var); ok && v.Pkg() != nil && v.Parent() == v.Pkg().Scope() && v.Name() == "fnSendRequest" {
-				sends = append(sends, call)
-			}
-		}
-	}
-	if !c.RequireCount("R-C10-5", "fnSendRequest call sites in doHandle", len(sends), 1) {
-		return
-	}
-	if len(sends) != 1 {
-		c10shape(c, "R-C10-5", cons+"|send-failure table", pos(c, sends[1]), "more than one send in doHandle")
-		return
-	}
-	send := sends[0]
-	var sendErr *ast.Ident
-	if as, ok := pm[send].(*ast.AssignStmt); ok && len(as.Lhs) == 2 && len(as.Rhs) == 1 {
-		sendErr = c10ident(as.Lhs[1])
-	}
-	if sendErr == nil || sendErr.Name == "_" {
-		c.Violate("R-C10-5", cons+"|send-failure table", pos(c, send), "the error of the send is not kept: a failed send is not classified at all")
-		return
-	}
-	sendErrObj := c10obj(f, sendErr)
-	sendErrKey := f.NilKey(sendErr)
-	c.Check(len(send.Args) >= 1 && c10fieldSel(f, send.Args[0], stdReqF), "R-C10-4", cons+"|sends the prepared request", pos(c, send),
-		"fnSendRequest(spCtx.stdReq, ...)", "the request sent is not spCtx.stdReq (the one prepared with the attempt's context)")
-
-	// ---- the context-error expressions consulted
-	type ctxErr struct {
-		xs     []string // renderings of the call and of every variable / parameter the value is bound to
-		call   *ast.CallExpr
-		recvOK bool
-		why    string
-	}
-	// paramFor returns the parameter identifier of the same-package callee of `outer` that
-	// receives outer's argument arg.
-	paramFor := func(outer *ast.CallExpr, arg ast.Expr) *ast.Ident {
-		fo, ok := f.Callee(outer).(*types.Func)
-		if !ok || fo.Pkg() != f.Pkg.Types {
-			return nil
-		}
-		fd := declOf(f.Pkg, fo)
-		if fd == nil || fd.Type.Params == nil {
-			return nil
-		}
-		k := 0
-		for _, fld := range fd.Type.Params.List {
-			if len(fld.Names) == 0 {
-				k++
-				continue
-			}
-			for _, name := range fld.Names {
-				if k < len(outer.Args) && ast.Unparen(outer.Args[k]) == ast.Unparen(arg) {
-					return name
-				}
-				k++
-			}
-		}
-		return nil
-	}
-	var bound func(o types.Object, depth int) []string
-	bound = func(o types.Object, depth int) []string {
-		var out []string
-		if o == nil || depth > 3 {
-			return nil
-		}
-		for _, g := range fs {
-			for _, outer := range calls(g.Body, true) {
-				for _, a := range outer.Args {
-					if id := c10ident(a); id != nil && c10obj(f, id) == o {
-						if p := paramFor(outer, a); p != nil {
-							out = append(out, f.Render(p))
-							out = append(out, bound(f.Info.Defs[p], depth+1)...)
-						}
-					}
-				}
-			}
-		}
-		return out
-	}
-	var errs []ctxErr
-	carriers := map[*ast.BlockStmt]bool{}
-	for _, g := range fs {
-		ast.Inspect(g.Body, func(n ast.Node) bool {
-			switch x := n.(type) {
-			case *ast.CompositeLit:
-				if tv, ok := f.Info.Types[x]; ok && types.Identical(tv.Type, speT) {
-					carriers[g.Body] = true
-				}
-			case *ast.SelectorExpr:
-				if v, ok := f.Info.Uses[x.Sel].(*types.Var); ok && v.Pkg() != nil && v.Pkg().Path() == "context" && v.Name() == "DeadlineExceeded" {
-					carriers[g.Body] = true
-				}
-			}
-			return true
-		})
-		for _, call := range calls(g.Body, false) {
-			if calleeFull(f, call) != "(context.Context).Err" {
-				continue
-			}
-			carriers[g.Body] = true
-			ce := ctxErr{call: call, xs: []string{f.Render(call)}}
-			switch par := pm[call].(type) {
-			case *ast.AssignStmt:
-				if len(par.Lhs) == 1 && len(par.Rhs) == 1 {
-					if id := c10ident(par.Lhs[0]); id != nil {
-						ce.xs = append(ce.xs, f.Render(id))
-						ce.xs = append(ce.xs, bound(c10obj(f, id), 0)...)
-					}
-				}
-			case *ast.CallExpr:
-				if p := paramFor(par, call); p != nil {
-					ce.xs = append(ce.xs, f.Render(p))
-					ce.xs = append(ce.xs, bound(f.Info.Defs[p], 0)...)
-				}
-			}
-			recv := c10alias(f, g.Body, c10recv(call))
-			switch r := ast.Unparen(recv).(type) {
-			case *ast.CallExpr:
-				switch {
-				case calleeFull(f, r) == "(*net/http.Request).Context" && c10fieldSel(f, c10alias(f, g.Body, c10recv(r)), stdReqF):
-					ce.recvOK = true
-				case calleeIs(f, r, "(*"+c10hp+".Request).Context"):
-					ce.why = "the client's request context (it carries no pool timeout: an expired pool timeout is classified as 503/serverError instead of 408/timeout)"
-				default:
-					ce.why = "?"
-				}
-			case *ast.Ident:
-				if g == f && c10ctxDerived(f, f.Body, r, ctxP) {
-					ce.recvOK = true
-				} else {
-					ce.why = "?"
-				}
-			default:
-				ce.why = "?"
-			}
-			errs = append(errs, ce)
-		}
-	}
-	dlKeys := func(x string) []string {
-		ks := []string{"eq:" + x + "==@context.DeadlineExceeded"}
-		for _, g := range fs {
-			for _, call := range calls(g.Body, false) {
-				if calleeFull(f, call) == "errors.Is" && len(call.Args) == 2 && f.Render(call.Args[0]) == x {
-					if sel, ok := ast.Unparen(call.Args[1]).(*ast.SelectorExpr); ok {
-						if v, ok := f.Info.Uses[sel.Sel].(*types.Var); ok && v.Pkg() != nil && v.Pkg().Path() == "context" && v.Name() == "DeadlineExceeded" {
-							ks = append(ks, f.CallKey(call))
-						}
-					}
-				}
-			}
-		}
-		return ks
-	}
-
-	// what a state knows about the value of the i-th ctx.Err() call: the engine's facts about any
-	// of its names, remembered as events as soon as a branch establishes them (the value of one
-	// evaluation of Err() does not change; the events are reset when the call is evaluated again).
-	// Needed because facts about a value handed through helper parameters can be dropped when the
-	// same helper is interpreted a second time (see the engine note in the reply).
-	errIdx := map[*ast.CallExpr]int{}
-	nilKeys := make([][]string, len(errs))
-	dlKeysOf := make([][]string, len(errs))
-	for i, ce := range errs {
-		errIdx[ce.call] = i
-		for _, x := range ce.xs {
-			nilKeys[i] = append(nilKeys[i], "nil:"+x)
-			dlKeysOf[i] = append(dlKeysOf[i], dlKeys(x)...)
-		}
-	}
-	known := func(st *flow.State, ev string, keys []string) flow.Val {
-		if v := st.Get(ev); v != flow.Unknown {
-			return v
-		}
-		for _, k := range keys {
-			if v := st.Get(k); v != flow.Unknown {
-				return v
-			}
-		}
-		return flow.Unknown
-	}
-
-	// the response read (header already received; the body is read under the same context)
-	reads := callsTo(f, f.Body, false, "(*"+c10px+".ServerPool).buildResponse")
-	readErrKey := map[*ast.CallExpr]string{}
-	for _, rd := range reads {
-		if as, ok := pm[rd].(*ast.AssignStmt); ok && len(as.Lhs) == 1 && len(as.Rhs) == 1 {
-			if id := c10ident(as.Lhs[0]); id != nil && id.Name != "_" {
-				readErrKey[rd] = f.NilKey(id)
-			}
-		}
-	}
-
-	res := analyze(c, f, flow.Config{
-		NoHavoc: true,
-		Inline:  c10relevantInline(f, carriers),
-		OnCall: func(st *flow.State, call *ast.CallExpr, callee types.Object, deferred bool) {
-			if i, ok := errIdx[call]; ok {
-				st.Set(sprintf("ev:ctxnil:%d", i), flow.Unknown)
-				st.Set(sprintf("ev:ctxdl:%d", i), flow.Unknown)
-			}
-			if call == send {
-				st.Set("ev:sent", flow.True)
-				st.Set("ev:sendfailed", flow.Unknown)
-			}
-			if readErrKey[call] != "" {
-				st.Set("ev:read", flow.True)
-				st.Set("ev:readfailed", flow.Unknown)
-				st.Set("ev:readkey:"+readErrKey[call], flow.True)
-			}
-		},
-		OnNode: func(st *flow.State, n ast.Node) {
-			// the send error variable is re-used for something else before having been tested
-			if as, ok := n.(*ast.AssignStmt); ok && st.Is("ev:sent", flow.True) && st.Get("ev:sendfailed") == flow.Unknown {
-				for _, l := range as.Lhs {
-					if id := c10ident(l); id != nil && c10obj(f, id) == sendErrObj && pm[send] != ast.Node(as) {
-						st.Set("ev:sendlost", flow.True)
-					}
-				}
-			}
-		},
-		AfterAssume: func(st *flow.State, cond ast.Expr, outcome bool) {
-			for i := range errs {
-				if v := known(st, sprintf("ev:ctxnil:%d", i), nilKeys[i]); v != flow.Unknown {
-					st.Set(sprintf("ev:ctxnil:%d", i), v)
-				}
-				if v := known(st, sprintf("ev:ctxdl:%d", i), dlKeysOf[i]); v != flow.Unknown {
-					st.Set(sprintf("ev:ctxdl:%d", i), v)
-				}
-			}
-			if st.Is("ev:sent", flow.True) && st.Get("ev:sendfailed") == flow.Unknown && !st.Is("ev:sendlost", flow.True) {
-				switch st.Get(sendErrKey) {
-				case flow.True:
-					st.Set("ev:sendfailed", flow.False)
-				case flow.False:
-					st.Set("ev:sendfailed", flow.True)
-				}
-			}
-			if st.Is("ev:read", flow.True) && st.Get("ev:readfailed") == flow.Unknown {
-				for _, k := range readErrKey {
-					if !st.Is("ev:readkey:"+k, flow.True) {
-						continue
-					}
-					switch st.Get(k) {
-					case flow.True:
-						st.Set("ev:readfailed", flow.False)
-					case flow.False:
-						st.Set("ev:readfailed", flow.True)
-					}
-				}
-			}
-		},
-	})
-	if res == nil {
-		return
-	}
-	// retLit reads a returned constant serverPoolError{code, result}
-	retLit := func(ex *flow.Exit) (code, result string, okLit bool) {
-		if ret := ex.Ret(); len(ret.Results) == 1 {
-			if cl, ok := ast.Unparen(ret.Results[0]).(*ast.CompositeLit); ok {
-				if tv, ok := f.Info.Types[cl]; ok && types.Identical(tv.Type, speT) && len(cl.Elts) == 2 {
-					var ce, re ast.Expr
-					for i, el := range cl.Elts {
-						if kv, ok := el.(*ast.KeyValueExpr); ok {
-							switch c10ident(kv.Key).Name {
-							case "code":
-								ce = kv.Value
-							case "result":
-								re = kv.Value
-							}
-						} else if i == 0 {
-							ce = el
-						} else {
-							re = el
-						}
-					}
-					if ce != nil && re != nil {
-						if v, ok := c10constInt(f, ce); ok {
-							if s, ok := c10constString(f, re); ok {
-								code, result, okLit = sprintf("%d", v), s, true
-							}
-						}
-					}
-				}
-			}
-		}
-		return
-	}
-	// ctxRow tells which row of the table a state is on ("" = not distinguished)
-	ctxRow := func(st *flow.State) string {
-		for i := range errs {
-			nilV := known(st, sprintf("ev:ctxnil:%d", i), nilKeys[i])
-			dl := known(st, sprintf("ev:ctxdl:%d", i), dlKeysOf[i])
-			switch {
-			case nilV == flow.True:
-				return "nil"
-			case dl == flow.True:
-				return "deadline"
-			case nilV == flow.False && dl == flow.False:
-				return "other"
-			case dl == flow.False:
-				return "notdeadline"
-			}
-		}
-		return ""
-	}
-	type row struct {
-		ex   *flow.Exit
-		why  string
-		kind string
-	}
-	var bad *row
-	rows := map[string]int{}
-	nFail := 0
-	lost := false
-	for _, ex := range res.Exits {
-		if ex.Kind != flow.ExitReturn || ex.Return == nil {
-			continue
-		}
-		st := ex.State
-		if st.Is("ev:sendlost", flow.True) {
-			lost = true
-		}
-		if !st.Is("ev:sendfailed", flow.True) {
-			continue
-		}
-		nFail++
-		// what is returned
-		code, result, okLit := retLit(ex)
-		if !okLit {
-			if bad == nil {
-				k := "violate"
-				if len(ex.Ret().Results) == 1 && !f.Info.Types[ex.Ret().Results[0]].IsNil() {
-					k = "shape"
-				}
-				bad = &row{ex, "after a failed send doHandle returns " + c10retString(ex.Ret()) + " instead of a constant serverPoolError{code, result}", k}
-			}
-			continue
-		}
-		// which row are we on?
-		which := ctxRow(st)
-		if which == "notdeadline" {
-			which = ""
-		}
-		if which == "" {
-			if bad == nil {
-				if os.Getenv("VERIF_C10_DEBUG") != "" {
-					fmt.Fprintln(os.Stderr, "DEBUG facts:", st.Facts(), "errs:", errs)
-				}
-				bad = &row{ex, sprintf("after a failed send doHandle returns (%s, %s) on a path that has not distinguished context error nil / DeadlineExceeded / other: timeouts, backend failures and client disconnects are not told apart", code, result), "violate"}
-			}
-			continue
-		}
-		rows[which]++
-		if w := want[which]; (w[0] != code || w[1] != result) && bad == nil {
-			bad = &row{ex, sprintf("send failed with request-context error %s: doHandle returns (%s, %s), the property demands (%s, %s)",
-				map[string]string{"nil": "nil (backend failure)", "deadline": "DeadlineExceeded (pool timeout expired)", "other": "non-nil, not DeadlineExceeded (client gone)"}[which], code, result, w[0], w[1]), "violate"}
-		}
-	}
-	if lost {
-		c10shape(c, "R-C10-5", cons+"|send-failure table", pos(c, send), "the send's error variable is overwritten before it is tested")
-		return
-	}
-	if nFail == 0 {
-		c.Violate("R-C10-5", cons+"|send-failure table", pos(c, send), "no exit of doHandle is taken with the send's error known non-nil: a failed send is not turned into a failure result")
-		return
-	}
-	switch {
-	case bad != nil && bad.kind == "shape":
-		c10shape(c, "R-C10-5", cons+"|send-failure table", pos(c, bad.ex.Ret()), bad.why)
-	case bad != nil:
-		c.Violate("R-C10-5", cons+"|send-failure table", pos(c, bad.ex.Ret()), bad.why, witness(bad.ex.State)...)
-	case rows["nil"] == 0 || rows["deadline"] == 0 || rows["other"] == 0:
-		c.Violate("R-C10-5", cons+"|send-failure table", pos(c, send), sprintf("the send-failure exits do not cover all three rows (nil: %d, DeadlineExceeded: %d, other: %d)", rows["nil"], rows["deadline"], rows["other"]))
-	default:
-		c.Discharge("R-C10-5", cons+"|send-failure table", pos(c, send),
-			sprintf("%d send-failure exits: ctx error nil => (503, %s); DeadlineExceeded => (408, %s); other => (499, %s)", nFail, want["nil"][1], want["deadline"][1], want["other"][1]))
-	}
-	// whose context error is consulted
-	okRecv, shape := true, false
-	why := ""
-	var at ast.Node = send
-	for _, ce := range errs {
-		if !ce.recvOK {
-			okRecv, at = false, ce.call
-			if ce.why == "?" {
-				shape = true
-			} else {
-				why = ce.why
-			}
-		}
-	}
-	switch {
-	case len(errs) == 0:
-		// reported by the table above
-	case shape:
-		c10shape(c, "R-C10-5", cons+"|classified by the outgoing request's context", pos(c, at), "cannot tell which context's Err() is consulted")
-	default:
-		c.Check(okRecv, "R-C10-5", cons+"|classified by the outgoing request's context", pos(c, at),
-			"Err() is read from spCtx.stdReq.Context() / the attempt's context", "the send failure is classified by "+why)
-	}
-
-	// ---- R-C10-5: a response read that fails because the pool timeout expired is a timeout too
-	if c.RequireCount("R-C10-5", "buildResponse call sites in doHandle", len(reads), 1) {
-		if len(readErrKey) != len(reads) {
-			c.Violate("R-C10-5", cons+"|response-read failure under the deadline", pos(c, reads[0]), "the error of buildResponse is not kept: a response whose body could not be read in time is passed on as success")
-		} else {
-			var badRead *flow.Exit
-			whyRead := ""
-			nRead := 0
-			for _, ex := range res.Exits {
-				if ex.Kind != flow.ExitReturn || ex.Return == nil || !ex.State.Is("ev:readfailed", flow.True) {
-					continue
-				}
-				nRead++
-				code, result, okLit := retLit(ex)
-				switch which := ctxRow(ex.State); {
-				case badRead != nil:
-				case which == "":
-					badRead, whyRead = ex, sprintf("reading the backend's response failed and doHandle returns (%s, %s) without consulting the attempt context's error: when the pool timeout expires while the body is still being received (header in time, body stalled) the result is %s instead of timeout (408)", code, result, result)
-				case which == "deadline" && (!okLit || code != want["deadline"][0] || result != want["deadline"][1]):
-					badRead, whyRead = ex, sprintf("reading the backend's response failed with the context's DeadlineExceeded: doHandle returns (%s, %s), the property demands (%s, %s)", code, result, want["deadline"][0], want["deadline"][1])
-				}
-			}
-			if nRead == 0 {
-				c.Violate("R-C10-5", cons+"|response-read failure under the deadline", pos(c, reads[0]), "no exit of doHandle is taken with buildResponse's error known non-nil")
-			} else {
-				c.Check(badRead == nil, "R-C10-5", cons+"|response-read failure under the deadline", pos(c, reads[0]),
-					sprintf("%d exit(s) after a failed response read: DeadlineExceeded => (408, %s)", nRead, want["deadline"][1]), whyRead,
-					func() []string {
-						if badRead == nil {
-							return nil
-						}
-						return append([]string{"return at " + pos(c, badRead.Return)}, witness(badRead.State)...)
-					}()...)
-			}
-		}
-	}
-
-	// ---- R-C10-4: the attempt's context reaches prepareRequest
-	preps := callsTo(f, f.Body, false, "(*"+c10px+".serverPoolContext).prepareRequest")
-	if !c.RequireCount("R-C10-4", "prepareRequest call sites in doHandle", len(preps), 1) {
-		return
-	}
-	okFlow := true
-	for _, p := range preps {
-		// the context argument, wherever it stands in the parameter list
-		var ctxArg *ast.Ident
-		nctx := 0
-		for _, a := range p.Args {
-			if tv, ok := f.Info.Types[a]; ok && c10isCtxType(tv.Type) {
-				ctxArg = c10ident(a)
-				nctx++
-			}
-		}
-		if nctx != 1 || !c10ctxDerived(f, f.Body, ctxArg, ctxP) {
-			okFlow, at = false, p
-		}
-	}
-	c.Check(okFlow, "R-C10-4", cons+"|attempt context reaches prepareRequest", pos(c, preps[0]),
-		"prepareRequest receives doHandle's ctx parameter (or a context derived from it)",
-		"prepareRequest does not receive a context derived from doHandle's ctx parameter: the pool timeout / client cancellation never reaches the backend request", pos(c, at))
-}
-
-// c10Prepare: the context given to prepareRequest becomes the context of the request stored in
-// stdReq.
-func c10Prepare(c *core.Ctx) {
-	f := fn(c, c10px, "serverPoolContext", "prepareRequest")
-	stdReqF := structField(c, c10px, "serverPoolContext", "stdReq")
-	if f == nil || stdReqF == nil {
-		return
-	}
-	cons := fname(c10px, "serverPoolContext", "prepareRequest")
-	var ctxP types.Object
-	for i := 0; i < 4; i++ {
-		if o := c10paramObj(f, f.Type, i); o != nil && c10isCtxType(o.Type()) {
-			ctxP = o
-		}
-	}
-	if ctxP == nil {
-		c.Errorf("R-C10-4: anchor: prepareRequest has no named context.Context parameter")
-		return
-	}
-	// variables holding a request built with the context
-	carrier := map[types.Object]bool{}
-	pm := parentMap(f.Body)
-	for _, call := range calls(f.Body, false) {
-		var ctxArg ast.Expr
-		switch calleeFull(f, call) {
-		case "net/http.NewRequestWithContext":
-			if len(call.Args) >= 1 {
-				ctxArg = call.Args[0]
-			}
-		case "(*net/http.Request).WithContext":
-			if len(call.Args) == 1 {
-				ctxArg = call.Args[0]
-			}
-		default:
-			continue
-		}
-		if !c10ctxDerived(f, f.Body, c10ident(ctxArg), ctxP) {
-			continue
-		}
-		if as, ok := pm[call].(*ast.AssignStmt); ok && len(as.Rhs) == 1 && len(as.Lhs) >= 1 {
-			if id := c10ident(as.Lhs[0]); id != nil {
-				carrier[c10obj(f, id)] = true
-			}
-		}
-	}
-	stores, good := 0, 0
-	var at ast.Node = f.Body
-	ast.Inspect(f.Body, func(n ast.Node) bool {
-		as, ok := n.(*ast.AssignStmt)
-		if !ok || len(as.Lhs) != len(as.Rhs) {
-			return true
-		}
-		for i, l := range as.Lhs {
-			if !c10fieldSel(f, l, stdReqF) {
-				continue
-			}
-			stores++
-			at = as
-			if id := c10ident(as.Rhs[i]); id != nil && carrier[c10obj(f, id)] {
-				// every write to the carrier variable must be such a request
-				all := true
-				for _, w := range c10writes(f, f.Body, c10obj(f, id)) {
-					src := w.rhs
-					if src == nil {
-						src = w.src
-					}
-					call, ok := ast.Unparen(src).(*ast.CallExpr)
-					if !ok {
-						all = false
-						continue
-					}
-					switch calleeFull(f, call) {
-					case "net/http.NewRequestWithContext", "(*net/http.Request).WithContext":
-					default:
-						all = false
-					}
-				}
-				if all {
-					good++
-				}
-			}
-		}
-		return true
-	})
-	if stores == 0 {
-		c.Violate("R-C10-4", cons+"|deadline reaches the backend request", pos(c, f.Body), "prepareRequest no longer stores the request it builds in spCtx.stdReq")
-		return
-	}
-	c.Check(good == stores, "R-C10-4", cons+"|deadline reaches the backend request", pos(c, at),
-		"spCtx.stdReq is the request built by http.NewRequestWithContext(ctx, ...) with prepareRequest's ctx parameter",
-		"the request stored in spCtx.stdReq is not built with prepareRequest's ctx parameter (NewRequestWithContext / WithContext): the pool timeout and the client's cancellation do not bound the backend call, which may hang")
-}
-
-// fnName returns the name identifier of a declared function (nil for literals).
 func c10fnName(g *flow.Func) *ast.Ident {
 	if fd, ok := g.Node.(*ast.FuncDecl); ok {
 		return fd.Name
